@@ -888,6 +888,10 @@ func ruleRanks(r *Run, rule string, fn *ssa.Function) {
 		}
 	})
 	if len(swaps) < 2 {
+		// ordered with sort.Slice: less(i, j) decided by evaluation over (ascending, s_i ? s_j, tie-break)
+		if rankBySortSlice(r, rule, fn, site) {
+			return
+		}
 		r.Und(rule, "ranks:swap", site, "swap of two elements not found")
 		return
 	}
@@ -1096,6 +1100,143 @@ func isSumFn(w *World, g *ssa.Function) bool {
 	return true
 }
 
+// rankBySortSlice: scoreMapToRanks orders its pairs with sort.Slice. For every valuation of (ascending flag, relation of
+// the two scores, relation of a tie-break key): less(i,j) ⇔ (ascending ∧ s_i < s_j) ∨ (¬ascending ∧ s_i > s_j) whenever
+// the scores differ. Also the rank assignment ranks[sorted[i].docID] = i.
+func rankBySortSlice(r *Run, rule string, fn *ssa.Function, site string) bool {
+	w := r.W
+	var sortCall *ssa.Call
+	for _, call := range callsIn(fn, func(cc *ssa.CallCommon) bool { return calleeName(cc) == "sort.Slice" || calleeName(cc) == "sort.SliceStable" }) {
+		sortCall = call.(*ssa.Call)
+	}
+	if sortCall == nil {
+		return false
+	}
+	cmp := closureArg(sortCall.Common(), 1)
+	if cmp == nil {
+		return false
+	}
+	r.Analysed(w.Name(cmp))
+	mc, _ := sortCall.Call.Args[1].(*ssa.MakeClosure)
+	np := len(cmp.Params)
+	if np < 2 || mc == nil {
+		return false
+	}
+	pi, pj := "P"+itoa(np-2), "P"+itoa(np-1)
+	cc := NewCanon(w)
+	// which free variable is the ascending flag?
+	ascFV := ""
+	for i, b := range mc.Bindings {
+		if b == ssa.Value(fn.Params[1]) {
+			ascFV = fmt.Sprintf("FV%d", i)
+		}
+		if a, ok := b.(*ssa.Alloc); ok {
+			if sv := singleStore(a); sv == ssa.Value(fn.Params[1]) {
+				ascFV = fmt.Sprintf("FV%d", i)
+			}
+		}
+	}
+	var bad []string
+	states := 0
+	for _, asc := range []bool{false, true} {
+		for _, srel := range []int{-1, 0, 1} {
+			for _, trel := range []int{-1, 1} {
+				states++
+				got, ok := evalBoolFn(cmp, func(v ssa.Value) (bool, bool) {
+					s := cc.S(v)
+					if ascFV != "" && s == ascFV {
+						return asc, true
+					}
+					bo, isBo := v.(*ssa.BinOp)
+					if !isBo {
+						return false, false
+					}
+					l, rr := cc.S(bo.X), cc.S(bo.Y)
+					rel := 0
+					known := false
+					orient := func(a, b string) (int, bool) {
+						li, lj := strings.Contains(a, "["+pi+"]"), strings.Contains(a, "["+pj+"]")
+						ri, rj := strings.Contains(b, "["+pi+"]"), strings.Contains(b, "["+pj+"]")
+						switch {
+						case li && !lj && rj && !ri:
+							return 1, true
+						case lj && !li && ri && !rj:
+							return -1, true
+						}
+						return 0, false
+					}
+					o, okO := orient(l, rr)
+					if !okO {
+						return false, false
+					}
+					if strings.HasSuffix(l, ".score") && strings.HasSuffix(rr, ".score") {
+						rel, known = srel*o, true
+					} else {
+						rel, known = trel*o, true
+					}
+					if !known {
+						return false, false
+					}
+					switch bo.Op {
+					case token.LSS:
+						return rel < 0, true
+					case token.GTR:
+						return rel > 0, true
+					case token.LEQ:
+						return rel <= 0, true
+					case token.GEQ:
+						return rel >= 0, true
+					case token.EQL:
+						return rel == 0, true
+					case token.NEQ:
+						return rel != 0, true
+					}
+					return false, false
+				})
+				if !ok {
+					bad = append(bad, fmt.Sprintf("ASC=%v s_i?s_j=%d: comparator not decided by the order flag and comparisons of the two elements", asc, srel))
+					continue
+				}
+				if srel == 0 {
+					continue // ties: any total order
+				}
+				want := (asc && srel < 0) || (!asc && srel > 0)
+				if got != want {
+					bad = append(bad, fmt.Sprintf("ASC=%v s_i?s_j=%d: less=%v, specification says %v", asc, srel, got, want))
+				}
+			}
+		}
+	}
+	if ascFV == "" {
+		bad = append(bad, "the comparator does not see the ascending flag")
+	}
+	if len(bad) > 0 {
+		r.Bad(rule, "ranks:swap-table", site, truncList(dedup(bad), 4))
+	} else {
+		r.Ok(rule, "ranks:swap-table", site, fmt.Sprintf("sort.Slice comparator, %d states: less(i,j) ⇔ (ascending ∧ s_i < s_j) ∨ (¬ascending ∧ s_i > s_j) when the scores differ ⇒ best first", states))
+	}
+	// ranks[id] = position, assigned after the sort
+	c := NewCanon(w)
+	okRank := false
+	for _, mu := range mapUpdatesOf(fn) {
+		if (isRangeIndex(mu.Value) || isCountedIndex(mu.Value)) && strings.HasSuffix(c.S(mu.Key), "[range].docID") && domInstr(sortCall, mu) {
+			okRank = true
+		}
+	}
+	r.Check(okRank, rule, "ranks:position", site, "rank of an id = its position in the sorted order", "rank is not the position of the id in the sorted order")
+	r.Ok(rule, "ranks:bounds", site, "sort.Slice orders the whole slice")
+	return true
+}
+
+func isCountedIndex(v ssa.Value) bool {
+	ph, ok := v.(*ssa.Phi)
+	if !ok {
+		return false
+	}
+	init, _, isLoop := countedLoop(ph)
+	return isLoop && init == 0
+}
+
 // unloadAddr: the address a loaded value was read from (or v itself).
 func unloadAddr(v ssa.Value) ssa.Value {
 	if u, ok := v.(*ssa.UnOp); ok && u.Op == token.MUL {
@@ -1144,11 +1285,15 @@ func evalBoolFn(g *ssa.Function, val func(ssa.Value) (bool, bool)) (bool, bool) 
 						}
 					}
 				}
-			case *ssa.BinOp, *ssa.UnOp, *ssa.DebugRef, *ssa.FieldAddr:
+			case *ssa.BinOp, *ssa.UnOp, *ssa.DebugRef, *ssa.FieldAddr, *ssa.IndexAddr, *ssa.Index, *ssa.Field, *ssa.Convert, *ssa.ChangeType, *ssa.Extract:
 			case *ssa.Call:
-				// only calls whose value the valuation defines (pure queries such as Contains)
+				// only calls whose value the valuation defines (pure queries such as Contains), or pure getters
 				if _, ok := val(x); !ok {
-					return false, false
+					if g := staticCallee(x.Common()); g == nil {
+						return false, false
+					} else if _, pure := isPureGetter(g); !pure {
+						return false, false
+					}
 				}
 			case *ssa.If:
 				c, ok := eval(x.Cond)
@@ -1310,7 +1455,19 @@ func ruleKindFactories(r *Run, p string) {
 		var bad []string
 		for _, k := range domain {
 			g := dedup(got[k])
-			if len(g) != 1 || g[0] != k {
+			// the kind's own implementation on some path, no other implementation on any; an error for this kind is the
+			// rejection of its other arguments (an invalid configuration), not a wrong dispatch
+			own, foreign := false, false
+			for _, x := range g {
+				switch x {
+				case k:
+					own = true
+				case "error":
+				default:
+					foreign = true
+				}
+			}
+			if !own || foreign {
 				bad = append(bad, fmt.Sprintf("%q → implementation of kind %v", k, g))
 			}
 		}
